@@ -44,9 +44,9 @@ Ops(shape) ==
                \cup { <<"add_diagonal", s>> : s \in {x \in Shapes1 \cup Shapes2 : ~T_BCompat(b \o <<n>>, x)} }
         ELSE { <<"solve", <<n, 1>>>>, <<"logdet", <<>>>>, <<"inv_quad", <<m, 1>>>>, <<"add_diagonal", <<1>>>>, <<"cholesky", <<>>>>,
                <<"root_decomposition", <<>>>> })
-  \* "+" / "-" with another OPERATOR whose matrix size does not broadcast: <<class code, size>>, codes 1 ConstantDiag, 2 Identity, 3 Diag, 4 Dense;
+  \* "+" / "-" with another OPERATOR whose matrix size does not broadcast: <<class code, size>>, codes 1 ConstantDiag, 2 Identity, 3 Diag, 4 Dense, 5 Zero;
   \* and the same after add_jitter (the sum is then routed through the diagonal part)
-  \cup { <<a, <<pc, sz>>>> : a \in {"add_op", "sub_op", "jitter_add_op"}, pc \in 1..4, sz \in {x \in {1, 2, 3, 5} : ~T_BCompat(shape, <<x, x>>)} }
+  \cup { <<a, <<pc, sz>>>> : a \in {"add_op", "sub_op", "jitter_add_op"}, pc \in 1..5, sz \in {x \in {1, 2, 3, 5} : ~T_BCompat(shape, <<x, x>>)} }
   \cup { <<"expand", s>> : s \in {x \in Shapes3 : ~T_Expandable(shape, x)} }
   \cup { <<"cat_rows_dim", <<m, n + 1>>>>, <<"cat_cols_dim", <<m + 1, n>>>> }
   \cup UNION { { <<"getitem_int", <<p, v>>>> : v \in {shape[p], shape[p] + 2, -shape[p] - 1} } : p \in 1..Len(shape) }
